@@ -10,11 +10,16 @@
   a ring can hold at once occupy 16 different slots (a reserved slot is never one that still holds an undelivered entry);
   recording changes only the tail and one slot, never the head.  Results of cache operations do not depend on the buffer:
   the Spec has no read buffer at all and the SEQ correspondence (C01) is exact with saturated buffers.
-  PARTIAL: the concurrent no-invention / at-most-once invariant over all interleavings is not mechanised (CONC-ring + skeletons).
+  All interleavings (Conc.Ring: one ring, unboundedly many producers, the single consumer, every schedule of reserve / publish /
+  cStart / cTake / cStop): what the consumer has handed over is exactly the sequence of the elements recorded at the indices
+  below its current index — each once, in recording order, nothing invented; never more than 16 entries; with nothing pending one
+  run of the consumer delivers everything recorded.
+  PARTIAL: the striped table (stripe creation, expansion) above the rings is covered by skeletons + CONC-ring only.
 -/
 import OtterVerif.Impl.Ring
 import OtterVerif.Conc.RingSkeleton
 import OtterVerif.Gen.Skeleton
+import OtterVerif.Conc.Ring
 
 namespace OtterVerif.Props.C17
 open OtterVerif.Impl.Ring
@@ -47,6 +52,46 @@ theorem c17_refused_unchanged (r : Ring) (x : Nat) (h : (add r x).2 = .full) : (
 theorem c17_newRing (x : Nat) : (drainTo (newRing x)).2 = [x] := by
   unfold drainTo newRing
   simp [drainTo.go]
+
+/-! ### All interleavings (Conc.Ring) -/
+
+/-- the buffer never holds more than its fixed capacity, under every interleaving of producers and the consumer -/
+theorem c17_conc_capacity {s : Conc.Ring.St} (h : Conc.Ring.Reach s) : s.tail - s.head ≤ 16 :=
+  (Conc.Ring.reach_inv h).o3
+
+/-- never hands the policy an entry that was not recorded, never hands a recorded entry more than once: the delivered sequence
+    is exactly the elements recorded at indices 0 .. hcur-1 (hcur ≤ tail = number of successful recordings), in that order -/
+theorem c17_conc_delivered_exact {s : Conc.Ring.St} (h : Conc.Ring.Reach s) :
+    s.delivered = (List.range (Conc.Ring.hcur s)).map s.val ∧ Conc.Ring.hcur s ≤ s.tail :=
+  ⟨(Conc.Ring.reach_inv h).dlv, (Conc.Ring.reach_inv h).o2⟩
+
+/-- … in particular the number of deliveries never exceeds the number of successful recordings -/
+theorem c17_conc_no_invention {s : Conc.Ring.St} (h : Conc.Ring.Reach s) : s.delivered.length ≤ s.tail := by
+  have := c17_conc_delivered_exact h
+  rw [this.1, List.length_map, List.length_range]; exact this.2
+
+/-- a producer never overwrites an entry that was not handed over yet: a freshly reserved index finds its slot empty -/
+theorem c17_conc_reserved_slot_empty {s : Conc.Ring.St} (h : Conc.Ring.Reach s) (hg : s.tail - s.head < 16) :
+    s.slot (s.tail % 16) = none := by
+  have hi := Conc.Ring.reach_inv h
+  exact hi.out (s.tail % 16) (Nat.mod_lt _ (by decide)) (fun i a b => by have := hi.o1; omega)
+
+/-- delivers every successfully recorded entry once the cache is quiescent and maintenance runs: with no publication pending
+    and the consumer idle, a run of the consumer ends with head = tail and everything recorded handed over, once, in order -/
+theorem c17_conc_quiescent_drain (s : Conc.Ring.St) (hr : Conc.Ring.Reach s) (hq : ∀ i, s.res i = false) (hc : s.cons = none) :
+    ∃ s', Conc.Ring.Steps s s' ∧ s'.head = s.tail ∧ s'.cons = none ∧ s'.delivered = (List.range s.tail).map s.val := by
+  obtain ⟨s', a, b, _, d, e⟩ := Conc.Ring.quiescent_drain s hr hq hc
+  exact ⟨s', a, b, d, e⟩
+
+/-- non-vacuity: two producers interleaved with the consumer -/
+theorem c17_conc_example : ∃ s, Conc.Ring.Reach s ∧ s.delivered = [7] ∧ s.tail = 2 ∧ s.res 1 = true := by
+  refine ⟨_, Conc.Ring.Reach.step (Conc.Ring.Reach.step (Conc.Ring.Reach.step (Conc.Ring.Reach.step (Conc.Ring.Reach.step
+    Conc.Ring.Reach.init (Conc.Ring.Step.reserve _ 7 (by decide))) (Conc.Ring.Step.reserve _ 9 (by decide)))
+    (Conc.Ring.Step.publish _ 0 (by simp [Conc.Ring.upd]))) (Conc.Ring.Step.cStart _ rfl (by decide)))
+    (Conc.Ring.Step.cTake _ 0 2 7 rfl (by decide) (by simp [Conc.Ring.upd])), ?_, ?_, ?_⟩
+  · rfl
+  · rfl
+  · simp [Conc.Ring.upd]
 
 theorem skeleton_ring_add : Gen.Skeleton.ring_add = Conc.RingSkeleton.ring_add := by decide
 
